@@ -53,6 +53,7 @@ Inductive ev :=
 | ReadyObs (keyed : bool) (key : option str) (ready : bool) (all : list N)
 | WaitCall (n : N) (keyed : bool) (key : option str)
 | WaitRet (n : N) (r : res)
+| HarnessFail (code : N) (a b : Z)                       (* a check made by the Go harness itself (free-running mode) *)
 | Teardown
 | Panic
 | Skip
